@@ -59,6 +59,19 @@ SPECIAL = {
     'Map_user_access|Send+Sync expected':
         "arc_swap::access::Map<FreshAccess, std::cell::Cell<u32>, fn(&std::cell::Cell<u32>) -> &std::cell::Cell<u32>>",
 }
+# cells whose Send and Sync differ: a projection (closure) that is Send but not Sync, or Sync but not Send, over a fully
+# thread-safe access. The wrapper stores the projection by value, so each marker follows the projection's own marker
+# (sharing it through an Arc would demand Send + Sync for either).  name -> (type, expect Send, expect Sync)
+_TS = "std::sync::Arc<arc_swap::ArcSwapAny<std::sync::Arc<u32>, arc_swap::DefaultStrategy>>"
+_TG = "arc_swap::Guard<std::sync::Arc<u32>, arc_swap::DefaultStrategy>"
+SPECIAL2 = {
+    'Map_send_only_projection': ("arc_swap::access::Map<%s, u32, SendOnly>" % _TS, True, False),
+    'Map_sync_only_projection': ("arc_swap::access::Map<%s, u32, SyncOnly>" % _TS, False, True),
+    'MapGuard_send_only_projection': ("arc_swap::access::MapGuard<%s, SendOnly, u32, u32>" % _TG, True, False),
+    'MapGuard_sync_only_projection': ("arc_swap::access::MapGuard<%s, SyncOnly, u32, u32>" % _TG, False, True),
+    'MapCache_send_only_projection': ("arc_swap::cache::MapCache<%s, std::sync::Arc<u32>, SendOnly>" % _TS, True, False),
+    'MapCache_sync_only_projection': ("arc_swap::cache::MapCache<%s, std::sync::Arc<u32>, SyncOnly>" % _TS, False, True),
+}
 # wrappers over the pointee directly (Arc / Rc kinds only)
 DIRECT = {
     'DirectDeref': ('<arc_swap::ArcSwapAny<{p}, {s}> as arc_swap::access::Access<{x}>>::Guard', dict(complete=True)),
@@ -82,6 +95,8 @@ impl<X: ?Sized + Sync> Probe<X> { pub const SYNC: bool = true; }
 
 /// Sync but not Send (holds a MutexGuard).
 pub struct SyncOnly(std::sync::MutexGuard<'static, u32>);
+/// Send but not Sync.
+pub struct SendOnly(std::cell::Cell<u32>);
 /// Neither Send nor Sync.
 pub struct Neither(*const u8, std::cell::Cell<u32>);
 /// Send + Sync although it leads (by reference) to a Sync-only type.
@@ -153,6 +168,10 @@ def gen_matrix(features):
         cell = 'CELL|%s' % name
         names.append(cell)
         lines.append('const _: () = assert!(Probe::<%s>::SEND && Probe::<%s>::SYNC, "%s");' % (w, w, cell))
+    for name, (w, se, sy) in SPECIAL2.items():
+        cell = 'CELL|%s|Send=%s Sync=%s expected' % (name, se, sy)
+        names.append(cell)
+        lines.append('const _: () = assert!(Probe::<%s>::SEND == %s && Probe::<%s>::SYNC == %s, "%s");' % (w, str(se).lower(), w, str(sy).lower(), cell))
     return '\n'.join(lines) + '\n', names
 
 
